@@ -391,8 +391,8 @@ pub fn run(e: &'static Engine) {
     e.assume("hook: src/wasm.rs is compiled unchanged for the host target; the wasm-bindgen glue itself is not exercised (no wasm32 target/runtime in the sandbox)");
     e.assume("margin is drawn from 0..=64 (a usize near usize::MAX would overflow viewBox arithmetic under the harness's overflow checks on any target)");
     crate::engine::run_regress(e, &|c, o| replay(e, c, o));
-    let total: u32 = e.tier.pick(4800, 100_000);
-    let shards = e.tier.pick(16u32, 64);
+    let total: u32 = e.tier.pick(19200, 300_000);
+    let shards = e.tier.pick(32u32, 96);
     let mut jobs: Vec<Job> = Vec::new();
     for _ in 0..shards {
         jobs.push(Box::new(move |jc: &mut JobCtx| {
